@@ -747,6 +747,18 @@ func c09free(c *core.Ctx) {
 		nops := r.Range(1, 30)
 		if shape == 0 {
 			nops = r.Range(1, 3) // barrier onto a fresh key, very short
+			if r.Bool() {
+				// ... and in half of these rounds onto a fresh VALUE as well: the very first
+				// calls on a zero-value keyed mutex arrive together
+				fresh := &keyed{rw: km.rw}
+				if km.rw {
+					fresh.rwm = new(sync2.KeyedRWMutex[int])
+				} else {
+					fresh.m = new(sync2.KeyedMutex[int])
+				}
+				km = fresh
+				c.Count("free_barrier_rounds_on_a_fresh_value", 1)
+			}
 		}
 		var wg sync.WaitGroup
 		start := make(chan struct{})
@@ -785,6 +797,26 @@ func c09free(c *core.Ctx) {
 				<-bDone // plain receive: if B can never get k2, this is a provable deadlock
 				km.release(kLock, k1)
 			}()
+			// in half of the rounds a third goroutine is already WAITING for the held key when
+			// B starts: a waiter must not keep anything locked that other keys need
+			if seeds[0]&4 == 4 {
+				hw.Add(1)
+				wStarted := make(chan struct{})
+				go func() {
+					defer hw.Done()
+					<-aHolds
+					close(wStarted)
+					km.acquire(kLock, k1) // blocks until A releases
+					km.release(kLock, k1)
+				}()
+				<-aHolds
+				<-wStarted
+				for i := 0; i < 50; i++ {
+					runtime.Gosched() // let the waiter get into LockKey
+				}
+				time.Sleep(200 * time.Microsecond)
+				c.Count("free_cross_key_rounds_with_a_waiter_on_the_held_key", 1)
+			}
 			go func() {
 				defer hw.Done()
 				<-aHolds
